@@ -31,7 +31,9 @@ class PF:
         rows, schema = PF.registry[fn]
         self.file_scheme = "simple" if rows else "empty"
         self.row_groups = [_rg(r, t) for r, t in rows]
-        elems = [parquet_thrift.SchemaElement(name=s) for s in schema]       # real schema elements, compared by value
+        # real schema elements, compared by value; an entry is a name or (name, converted_type)
+        elems = [parquet_thrift.SchemaElement(name=s) if isinstance(s, str) else
+                 parquet_thrift.SchemaElement(name=s[0], type=6, converted_type=s[1]) for s in schema]
         self._schema = elems
         self.schema = _SchemaObj(elems)
         self.fmd = parquet_thrift.FileMetaData(version=1, schema=elems, num_rows=sum(r for r, _ in rows),
@@ -120,7 +122,7 @@ class _SchemaObj:
     """schema.SchemaHelper as far as comparisons go"""
 
     def __init__(self, elems):
-        self.elems = [e.name if hasattr(e, "name") else e for e in elems]
+        self.elems = [(e.name, e.converted_type) if hasattr(e, "name") else e for e in elems]
 
     def __eq__(self, o):
         return isinstance(o, _SchemaObj) and self.elems == o.elems
@@ -135,7 +137,8 @@ class _SchemaMod:
     SchemaHelper = _SchemaObj
 
 
-SCHEMAS = [["s"], ["t"], ["s", "u"], []]        # same / renamed column / one more column / one column fewer
+# same / renamed column / one more column / one column fewer / text annotation missing / text annotation added
+SCHEMAS = [["s"], ["t"], ["s", "u"], [], [("s", None)], [("s", 0)]]
 
 
 KIND = int(os.environ.get("VERIF_KIND", "1"))      # how the odd file differs (lattice): 1 renamed, 2 extra, 3 fewer
@@ -150,7 +153,8 @@ def h_many_schema_mismatch(which: int, with_fs: bool) -> bool:
     # with verification requested a file whose schema differs (renamed column, one more, one fewer) is rejected,
     # whether the footers are read one by one or gathered through the filesystem object (>= 3 files)
     files = ["root/a.parq", "root/b.parq", "root/c.parq"]
-    PF.registry = {fn: ([(3, i)], ["r"] + (SCHEMAS[0] if i != which else SCHEMAS[kind])) for i, fn in enumerate(files)}
+    base = {4: [("s", 0)], 5: [("s", None)]}.get(kind, SCHEMAS[0])
+    PF.registry = {fn: ([(3, i)], ["r"] + (base if i != which else SCHEMAS[kind])) for i, fn in enumerate(files)}
     fs = _FS({files[1]: 50, files[2]: 50}) if with_fs else None
     saved = (api.ParquetFile, util._get_fmd, api.__dict__.get("schema"))
     api.ParquetFile = PF
@@ -181,10 +185,16 @@ def replay_h_many_schema_mismatch(which, with_fs):
         for i in range(3):
             fn = os.path.join(d, "f%d.parq" % i)
             cols = {"x": [1., 2.], "y": [3., 4.]}
-            if i == which:
+            enc = None
+            if kind in (4, 5):
+                # a text column in the other files, raw bytes in the odd one (4) - or the other way round (5)
+                text = (i != which) if kind == 4 else (i == which)
+                cols = {"x": ["a", "b"] if text else [b"a", b"b"], "y": [3., 4.]}
+                enc = {"x": "utf8" if text else "bytes"}
+            elif i == which:
                 cols = [{"z": [1., 2.], "y": [3., 4.]}, {"x": [1., 2.], "y": [3., 4.], "u": [5., 6.]},
                         {"x": [1., 2.]}][kind - 1]
-            fastparquet.write(fn, pd.DataFrame(cols))
+            fastparquet.write(fn, pd.DataFrame(cols), **({"object_encoding": enc} if enc else {}))
             paths.append(fn)
         try:
             fastparquet.ParquetFile(paths, verify=True)       # (a list of local paths always comes with a filesystem)
@@ -193,7 +203,8 @@ def replay_h_many_schema_mismatch(which, with_fs):
         except Exception as ex:
             return False, "rejected (%s)" % type(ex).__name__
         return True, "a file with %s is accepted although verification was requested" % (
-            ["a renamed column", "one more column", "one column fewer"][kind - 1])
+            ["a renamed column", "one more column", "one column fewer", "a column lacking the text annotation the "
+             "others have", "a column carrying a text annotation the others lack"][kind - 1])
     finally:
         shutil.rmtree(d, ignore_errors=True)
 
